@@ -209,6 +209,10 @@ func (p *Proxy) call(ctx context.Context, m *GoMethod, args ...Object) Object {
 		return ArgsErrorf("args error: %s() requires %d arguments, but %d were given",
 			methodFullName, minArgs, len(inputs))
 	}
+	if argIndex < len(args) {
+		return ArgsErrorf("args error: %s() received %d more arguments than it accepts",
+			methodFullName, len(args)-argIndex)
+	}
 	outputs := m.method.Func.Call(inputs)
 	if len(outputs) == 0 {
 		return Nil
